@@ -55,10 +55,16 @@ def param2json_schema_property(param, required):
             ), "Only basic Literal support is implemented, not {}".format(
                 parsed_typ.value.id
             )
+            literal_slice = cdd.shared.ast_utils.get_value(parsed_typ.slice)
             enum = sorted(
                 map(
                     cdd.shared.ast_utils.get_value,
-                    cdd.shared.ast_utils.get_value(parsed_typ.slice).elts,
+                    # `Literal['a', 'b']` subscripts a `Tuple`; `Literal['a']` subscripts the lone member itself
+                    (
+                        literal_slice.elts
+                        if isinstance(literal_slice, ast.Tuple)
+                        else (literal_slice,)
+                    ),
                 )
             )
             _param.update(
